@@ -248,7 +248,8 @@ func (s *Spec) elemKinds() string {
 
 // ArrReps lists the representations this array spec can take.
 func (s *Spec) ArrReps() []string {
-	reps := []string{"", "array"}
+	// (namedany: a named slice type whose elements are any - what a BSON or JSON library may hand out)
+	reps := []string{"", "array", "namedany"}
 	switch s.elemKinds() {
 	case "int":
 		reps = append(reps, "typed")
@@ -322,6 +323,12 @@ func (s *Spec) isInterval() bool {
 
 func (s *Spec) realiseArr() any {
 	switch s.R {
+	case "namedany":
+		out := make(namedList, len(s.E), len(s.E)+s.Cap)
+		for i, e := range s.E {
+			out[i] = e.Realise()
+		}
+		return out
 	case "nilslice":
 		if len(s.E) == 0 {
 			return []string(nil) // a nil typed slice: an empty array as far as Liquid is concerned
